@@ -27,8 +27,7 @@ import Model.Hll
 import Model.Hash
 import Model.HeavyHitters
 import Model.Estimator
-import Model.Persist
-import Model.Parallel
+import Model.DriverExtra
 import Std.Data.HashMap
 open Sketchnu
 
